@@ -37,6 +37,10 @@ def _base():
         g=C.Coefficient(S, count=4),
         v=C.Coefficient(V, count=5),
         c=C.Constant(m1, (), 3),
+        # user subclass with a constant hash: h3 != h4 but hash(h3) == hash(h4), so the comparisons of p0 and p2
+        # get past the hash cut-off of expr_equals
+        h3=U.HC(S, 13),
+        h4=U.HC(S, 14),
     )
 
 
@@ -48,33 +52,33 @@ def _operand(e, cls):
 def pool_core():
     """7 objects: equal-but-distinct, nearly equal deep inside, shared subtrees, operand-of relations."""
     a, b = _base(), _base()  # two independent sets of terminal objects
-    p0 = (a["f"] + a["g"]) * ufl.sin(a["f"])
-    p1 = (b["f"] + b["g"]) * ufl.sin(b["f"])  # equal to p0, no shared object
-    p2 = (a["f"] + a["g"]) * ufl.sin(a["g"])  # differs from p0 deep inside; terminals shared with p0
+    p0 = (a["f"] + a["g"]) * ufl.sin(a["h3"])
+    p1 = (b["f"] + b["g"]) * ufl.sin(b["h3"])  # equal to p0, no shared object
+    p2 = (a["f"] + a["g"]) * ufl.sin(a["h4"])  # differs from p0 deep inside, SAME HASH; terminals shared with p0
     p3 = _operand(p0, C.Sum)  # the very operand object of p0
     p4 = b["f"] + b["g"]  # equal to p3, distinct from p1's operand
     p5 = p0 + a["c"]  # has p0 as operand object
-    q = (b["f"] + b["g"]) * ufl.sin(b["f"])
+    q = (b["f"] + b["g"]) * ufl.sin(b["h3"])
     p6 = q + b["c"]  # equal to p5, no shared operator object
     return [p0, p1, p2, p3, p4, p5, p6]
 
 
 POOL_CORE_NAMES = [
-    "p0=(f+g)*sin(f)",
-    "p1=(f+g)*sin(f) [independent copy]",
-    "p2=(f+g)*sin(g) [shares terminals with p0]",
+    "p0=(f+g)*sin(h3)",
+    "p1=(f+g)*sin(h3) [independent copy]",
+    "p2=(f+g)*sin(h4) [hash(h4)==hash(h3), h4!=h3; shares terminals with p0]",
     "p3=the Sum operand object of p0",
     "p4=f+g [independent copy]",
     "p5=p0+c [p0 is its operand object]",
-    "p6=((f+g)*sin(f))+c [independent copy]",
+    "p6=((f+g)*sin(h3))+c [independent copy]",
 ]
 
 
 def pool_ext():
     """custom __eq__ (Variable), index notation (cached index slots), list tensors, conditionals + 3 core objects."""
     a, b = _base(), _base()
-    p0 = (a["f"] + a["g"]) * ufl.sin(a["f"])
-    p1 = (b["f"] + b["g"]) * ufl.sin(b["f"])
+    p0 = (a["f"] + a["g"]) * ufl.sin(a["h3"])
+    p1 = (b["f"] + b["g"]) * ufl.sin(b["h3"])
     p2 = _operand(p0, C.Sum)
     i7 = C.Index(U.I7)
     p3 = C.Variable(p2, C.Label(5))  # wraps the operand object of p0
@@ -87,8 +91,8 @@ def pool_ext():
 
 
 POOL_EXT_NAMES = [
-    "p0=(f+g)*sin(f)",
-    "p1=(f+g)*sin(f) [independent copy]",
+    "p0=(f+g)*sin(h3)",
+    "p1=(f+g)*sin(h3) [independent copy]",
     "p2=the Sum operand object of p0",
     "p3=Variable(p2, Label(5))",
     "p4=Variable(f+g, Label(5)) [independent copy]",
@@ -100,9 +104,9 @@ POOL_EXT_NAMES = [
 def pool_forms():
     """forms and integrals: Form.equals -> Integral.__eq__ -> expr_equals rewrites the integrands."""
     a, b = _base(), _base()
-    e0 = (a["f"] + a["g"]) * ufl.sin(a["f"])
-    e1 = (b["f"] + b["g"]) * ufl.sin(b["f"])
-    e2 = (a["f"] + a["g"]) * ufl.sin(a["g"])
+    e0 = (a["f"] + a["g"]) * ufl.sin(a["h3"])
+    e1 = (b["f"] + b["g"]) * ufl.sin(b["h3"])
+    e2 = (a["f"] + a["g"]) * ufl.sin(a["h4"])  # same hash as e0
     F0 = e0 * ufl.dx(domain=a["m1"])
     F1 = e1 * ufl.dx(domain=b["m1"])
     F2 = e2 * ufl.dx(domain=a["m1"])
@@ -117,7 +121,7 @@ POOL_FORMS_NAMES = [
     "F3=e0*dx(metadata)",
     "I0=the integral object of F0",
     "I1=the integral object of F1",
-    "e0=(f+g)*sin(f), the integrand object of F0",
+    "e0=(f+g)*sin(h3), the integrand object of F0",
     "e1 [independent copy, integrand of F1]",
 ]
 
